@@ -12,6 +12,16 @@ pub fn gen(r: &mut Rng, thorough: bool) -> String {
         let s = r.below(4) as usize;
         if !open[s] { ops.push(format!("open {s}")); open[s] = true; continue; }
         let w = if r.chance(1, 2) { "rcv" } else { "snd" };
+        if r.chance(1, 8) {
+            // a socket with limits in both directions in use is closed and its descriptor number reused
+            let o = if w == "rcv" { "snd" } else { "rcv" };
+            ops.push(format!("set {s} {w} {} {}", r.range(1, 5), *r.pick(&[0i64, 250_000])));
+            if r.chance(1, 2) { ops.push(format!("set {s} {o} {} 0", r.range(1, 5))); }
+            ops.push(format!("io {s} {o}")); ops.push(format!("io {s} {w}"));
+            ops.push(format!("close {s}")); ops.push(format!("open {s}"));
+            ops.push(format!("io {s} {w}")); ops.push(format!("io {s} {o}"));
+            continue;
+        }
         match r.below(10) {
             0..=3 => {
                 let sec = *r.pick(&[0i64, 0, 0, 1, 2, 3600, -1, 9_000_000_000]);
